@@ -587,6 +587,13 @@ impl ObjValue {
 
 	fn get_idx(&self, key: IStr, core: CoreIdx) -> Result<Option<Val>> {
 		let cache_key = (key.clone(), core);
+		if let Some(CacheValue::Cached(v)) = self.0.value_cache.borrow().get(&cache_key) {
+			return v.clone();
+		}
+		// Assertions run before the first field is computed, and they may read this very field
+		// (`{ assert self.a, a: .. }.a`): run them before the field is marked as pending, so that
+		// their read computes and caches it once instead of the field being computed a second time.
+		self.run_assertions()?;
 		let mut _reentry_guard = None;
 		{
 			let mut cache = self.0.value_cache.borrow_mut();
